@@ -105,10 +105,15 @@ def run_one(m, keep_going=False):
         shutil.copytree(REPO, repo, ignore=shutil.ignore_patterns(".git"))
         p = os.path.join(repo, m["file"])
         lines = open(p).read().split("\n")
-        if lines[m["line"]] != m["old"]:
-            res["outcome"] = "stale"
-            return res
-        lines[m["line"]] = m["new"]
+        ln = m["line"]
+        if ln >= len(lines) or lines[ln] != m["old"]:
+            # /repo moved on since the mutants were generated: take the nearest identical line
+            cands = [i for i, l in enumerate(lines) if l == m["old"]]
+            if not cands:
+                res["outcome"] = "stale"
+                return res
+            ln = min(cands, key=lambda i: abs(i - m["line"]))
+        lines[ln] = m["new"]
         open(p, "w").write("\n".join(lines))
         r = subprocess.run("go build ./...", shell=True, cwd=repo, env=ENV, stdout=subprocess.PIPE, stderr=subprocess.STDOUT, text=True)
         if r.returncode != 0:
